@@ -78,7 +78,7 @@ def fold_resolver(ctx: Ctx, sa):
     ctx.check(len(calls) >= len(want), "resolver-visits-all", "_resolve_forward_references:count",
               "resolver performed fewer resolve_types calls than there are attrs classes", P_HOOKS, fn.lineno)
     # the registry function is called first in register_hooks
-    ctx.check(bool(h.register_order) and h.register_order[0] == "_resolve_forward_references",
+    ctx.check(bool(h.resolver_first),
               "resolver-runs-first", "register_hooks",
               "register_hooks does not resolve forward references before registering hooks", P_HOOKS)
 
